@@ -473,18 +473,35 @@ def _kind_of(v):
 _KRANK = {"bool": 0, "int": 1, "real": 2}
 
 
+def as_fortran(a):
+    """the same elements stored column-major (np.asfortranarray / np.vstack(columns).T of a user)"""
+    return IArr(a._shape, a.snapshot(), a.kind, layout="F")
+
+
 class IArr:
     """lazy array: shape (ints / SZ) + element function on index terms"""
 
     __array_priority__ = 1000
 
-    def __init__(s, shape, f, kind="int", base=None, tobase=None, frombase=None, contig=True):
+    def __init__(s, shape, f, kind="int", base=None, tobase=None, frombase=None, contig=True, layout=None):
         s._shape = tuple(norm(d) for d in shape)
         s._f = f
         s.kind = kind
         s._base, s._tobase, s._frombase = base, tobase, frombase
         s.contig = contig
+        s._layout = layout
         s._version = 0
+
+    @property
+    def layout(s):
+        """memory order of the elements: 'C' (row-major, what every numpy function returns), 'F' (column-major: a
+        user array built by asfortranarray / vstack(...).T), None = not known (a strided view).  Only ravel / flatten
+        / reshape with order 'K' / 'A' / 'F' read it; element access, arithmetic and in-place writes do not"""
+        if s.ndim <= 1:
+            return "C"
+        if s._layout is not None:
+            return s._layout
+        return "C" if s.contig else None
 
     # ---- structure
     shape = property(lambda s: s._shape)
@@ -540,8 +557,11 @@ class IArr:
     def __deepcopy__(s, memo):
         return IArr(s._shape, s.snapshot(), s.kind)
 
-    def copy(s):
-        return IArr(s._shape, s.snapshot(), s.kind)
+    def copy(s, order="C"):
+        lay = {"C": "C", "F": "F", "K": s.layout, "A": "F" if s.layout == "F" else "C"}.get(order)
+        if lay is None:
+            raise Undecided(f"E3: copy(order={order!r}) of an array whose memory order is not known")
+        return IArr(s._shape, s.snapshot(), s.kind, layout=lay)
 
     # ---- flat <-> multi index (C order)
     def unflat(s, m, shape=None):
@@ -566,13 +586,27 @@ class IArr:
     def ravel(s, order="C"):
         if s.ndim == 1:
             return s
-        return s.reshape(-1)
+        if order in ("K", "A"):
+            lay = s.layout
+            if lay is None:
+                raise Undecided(f"E3: ravel(order={order!r}) of an array whose memory order is not known")
+            order = lay
+        if order == "C":
+            return s.reshape(-1)
+        if order == "F":  # column-major: the C-order ravel of the reversed-axes transpose (a copy unless F-contiguous)
+            g, sh = s.snapshot(), tuple(reversed(s._shape))
+            return IArr((s.size,), lambda m: g(*reversed(s.unflat(m, sh))), s.kind)
+        raise Unsupported(f"E3: ravel(order={order!r})")
 
     def flatten_copy(s):
         g, sh = s.snapshot(), s._shape
         return IArr((s.size,), lambda m: g(*s.unflat(m, sh)), s.kind)
 
     def reshape(s, *shape, order="C"):
+        if order == "A" and s.layout == "C":
+            order = "C"
+        if order != "C":
+            raise Unsupported(f"E3: reshape(order={order!r})")
         if len(shape) == 1 and isinstance(shape[0], (tuple, list)):
             shape = tuple(shape[0])
         shape = [norm(d) for d in shape]
@@ -613,7 +647,9 @@ class IArr:
                 b[a] = idx[k]
             return tuple(b)
 
-        return IArr(shape, None, s.kind, base=s, tobase=tob, frombase=lambda *b: tuple(b[a] for a in axes), contig=(axes == tuple(range(s.ndim))) and s.contig)
+        ident, rev = axes == tuple(range(s.ndim)), axes == tuple(reversed(range(s.ndim)))
+        lay = s.layout if ident else ({"C": "F", "F": "C"}.get(s.layout) if rev else None)
+        return IArr(shape, None, s.kind, base=s, tobase=tob, frombase=lambda *b: tuple(b[a] for a in axes), contig=ident and s.contig, layout=lay)
 
     T = property(lambda s: s.transpose())
 
@@ -1446,7 +1482,8 @@ _IMPL = {
     "isclose": _isclose,
     "where": _where,
     "transpose": _transpose,
-    "ravel": lambda a, **k: a.ravel(),
+    "ravel": lambda a, order="C", **k: a.ravel(order=order),
+    "asfortranarray": lambda a, **k: as_fortran(a),
     "reshape": lambda a, shape, **k: a.reshape(shape),
     "cumsum": _cumsum,
     "insert": _insert,
@@ -1650,6 +1687,10 @@ class Sym:
         fn = z3.Function(name, *([z3.IntSort()] * len(shape)), z3.RealSort())
         return IArr(shape, lambda *i: fn(*[Z(x) for x in i]), "real")
 
+    def fortran(s, a):
+        """the same array stored column-major (what a user gets from np.asfortranarray / np.vstack(columns).T)"""
+        return as_fortran(a)
+
     def bools(s, name, shape):
         shape = tuple(norm(d) for d in shape)
         fn = z3.Function(name, *([z3.IntSort()] * len(shape)), z3.BoolSort())
@@ -1827,6 +1868,9 @@ class Nat:
         a = _np.array([-1.0, 0.0, 0.5, 2.0])[s.nrng.randint(0, 4, size=shape)]  # few distinct values: coincidences
         s.inputs[name] = a.tolist()
         return a
+
+    def fortran(s, a):
+        return _np.asfortranarray(a)
 
     def bools(s, name, shape):
         a = s.nrng.rand(*shape) < 0.5
@@ -2066,6 +2110,16 @@ def selftest(seed=0):
         cmp("ravel", a.ravel(), A.ravel())
         cmp("transpose", a.T, A.T)
         cmp("T.ravel", a.T.ravel(), A.T.ravel())
+        # memory order: ravel / copy with order F / K / A on C-ordered, F-ordered and transposed arrays
+        AF, af = _np.asfortranarray(A), as_fortran(a)
+        for o in ("C", "F", "K", "A"):
+            cmp(f"ravel({o})", a.ravel(order=o), A.ravel(order=o))
+            cmp(f"asfortranarray.ravel({o})", af.ravel(order=o), AF.ravel(order=o))
+            cmp(f"T.ravel({o})", a.T.ravel(order=o), A.T.ravel(order=o))
+            cmp(f"asfortranarray.T.ravel({o})", af.T.ravel(order=o), AF.T.ravel(order=o))
+            cmp(f"asfortranarray.copy({o}).ravel(K)", af.copy(order=o).ravel(order="K"), AF.copy(order=o).ravel(order="K"))
+        cmp("asfortranarray.copy().ravel(K)", af.copy().ravel(order="K"), AF.copy().ravel(order="K"))
+        cmp("asfortranarray.reshape(-1)", af.reshape(-1), AF.reshape(-1))
         if A.ndim == 3:
             cmp("transpose(2,0,1).ravel", a.transpose((2, 0, 1)).ravel(), A.transpose((2, 0, 1)).ravel())
             cmp("tile(1,r,1)", _tile(a, (1, 3, 1)), _np.tile(A, (1, 3, 1)))
